@@ -603,6 +603,27 @@ func laws20(c case20) (vs []verdict20, info map[string]string) {
 	default:
 		info["idempotence"] = "checked"
 	}
+	// --- canonical order: in a formatted document every mapping is sorted for Less and every whitelisted
+	// list for its sort key (comparators re-implemented here from yaml.FieldOrder)
+	if outNodes, e := read20(y, true); e == nil {
+		for _, on := range outNodes {
+			kind, api, ok := typeMeta20(on)
+			if !ok || fmtOptOut20(on) {
+				continue
+			}
+			if where, bad := unsorted20(on.YNode(), "", wlOn20(kind, api)); bad {
+				class := "order/not-sorted"
+				switch {
+				case f.nestedSeqKeyed:
+					class = "idempotence/nested-seq-in-keyed-list" // same defect: the key read before the element was formatted
+				case f.dupSortFieldBig:
+					class = "idempotence/dup-sortfield-unstable-sort"
+				}
+				vs = append(vs, verdict20{"canonical_order", class, "formatted output is not in canonical order at " + where})
+			}
+		}
+		info["order"] = "checked"
+	}
 	// --- value preservation (typed JSON per document, up to the whitelisted lists)
 	xd, yd := splitDocs20(c.Yaml), splitDocs20(y)
 	idx, okidx := identity20(c.Yaml)
@@ -626,6 +647,8 @@ func laws20(c case20) (vs []verdict20, info map[string]string) {
 					class := "value/output-unreadable"
 					if f.alias && strings.Contains(ey.Error(), "unknown anchor") {
 						class = "reparse/alias-before-anchor"
+					} else if c.UseSchema && strings.Contains(ey.Error(), "cannot decode !!") {
+						class = "schema/mismatched-scalar-retagged"
 					}
 					vs = append(vs, verdict20{"value_preserved", class, "output document does not parse: " + ey.Error()})
 					continue
@@ -676,7 +699,11 @@ func laws20(c case20) (vs []verdict20, info map[string]string) {
 	}
 	// --- comments: multiset of comment lines, relative to what the reader/writer pair alone preserves
 	xc, okx := commentLines20(c.Yaml)
-	if okx && len(xc) > 0 {
+	if okx && len(xc) > 0 && f.complexKey {
+		// go-yaml's encoder does not reliably emit the comments next to a complex ("? ") key once the
+		// key has moved (S3); the node trees still carry them (layer A compares them)
+		info["comments"] = "skipped-complex-key"
+	} else if okx && len(xc) > 0 {
 		id, okid := identity20(c.Yaml)
 		ic, oki := commentLines20(id)
 		if okid && oki && reflect.DeepEqual(xc, ic) {
@@ -691,6 +718,54 @@ func laws20(c case20) (vs []verdict20, info map[string]string) {
 		}
 	}
 	return vs, info
+}
+
+func lessKey20(a, b string) bool {
+	i, fi := kyaml.FieldOrder[a]
+	j, fj := kyaml.FieldOrder[b]
+	switch {
+	case fi && fj:
+		return i < j
+	case fi:
+		return true
+	case fj:
+		return false
+	}
+	return a < b
+}
+
+// unsorted20 reports the first mapping / whitelisted list of a formatted document that is out of order.
+func unsorted20(n *yaml.Node, path string, wl bool) (string, bool) {
+	switch n.Kind {
+	case yaml.MappingNode:
+		for i := 2; i+1 < len(n.Content); i += 2 {
+			if lessKey20(n.Content[i].Value, n.Content[i-2].Value) {
+				return fmt.Sprintf("mapping %q: key %q after %q", path, n.Content[i].Value, n.Content[i-2].Value), true
+			}
+		}
+		for i := 0; i+1 < len(n.Content); i += 2 {
+			if w, bad := unsorted20(n.Content[i], path, wl); bad {
+				return w, true
+			}
+			if w, bad := unsorted20(n.Content[i+1], path+"."+n.Content[i].Value, wl); bad {
+				return w, true
+			}
+		}
+	case yaml.SequenceNode:
+		if sf, found := kyaml.WhitelistedListSortFields[path]; found && wl {
+			for i := 1; i < len(n.Content); i++ {
+				if seqKey20(n.Content[i], sf) < seqKey20(n.Content[i-1], sf) {
+					return fmt.Sprintf("list %q: element %d before element %d", path, i-1, i), true
+				}
+			}
+		}
+		for _, e := range n.Content {
+			if w, bad := unsorted20(e, path, wl); bad {
+				return w, true
+			}
+		}
+	}
+	return "", false
 }
 
 func docDupKeys20(n *kyaml.RNode) bool {
@@ -974,6 +1049,7 @@ type result20 struct {
 	nontrivial bool
 	facts      facts20
 	skipWhy    string
+	writtenComments           bool
 	schemaFound               bool
 	quotedBySchema, unquotedBySchema, retaggedBySchema int
 }
@@ -993,9 +1069,6 @@ func runImpl20(c case20, withWritten bool) result20 {
 	if res.facts.bigEquiv {
 		// sort.Sort is not stable beyond 12 elements: the order among equal sort keys is not claimed
 		res.skipWhy = "equal-sort-keys-beyond-12"
-	}
-	if res.facts.complexKey {
-		res.skipWhy = "complex-key"
 	}
 	// input terms + schema projection + nonstr table
 	vals := map[string]bool{}
@@ -1074,14 +1147,41 @@ func runImpl20(c case20, withWritten bool) result20 {
 		}
 		res.nontrivial = strings.Join(after, ";") != strings.Join(before, ";")
 	}
+	docComments := func(ns []*kyaml.RNode) []string {
+		out := []string{}
+		for _, n := range ns {
+			if d := n.Document(); d != nil && d.Kind == yaml.DocumentNode {
+				for _, cm := range []string{d.HeadComment, d.LineComment, d.FootComment} {
+					if cm != "" {
+						out = append(out, cm)
+					}
+				}
+			}
+		}
+		return out
+	}
+	dcIn, dcOut := docComments(nodes), []string{}
 	written := "None"
-	if withWritten && !c.Omit && cls == ClsOk {
+	if withWritten && !c.Omit && cls == ClsOk && !res.facts.complexKey {
 		y, cls2, _ := format20(c.Yaml, c.UseSchema)
 		if cls2 == ClsOk {
 			wn, err := read20(y, true)
 			if err == nil {
+				dcOut = docComments(wn)
 				if t, ok := cnodeListTerm(wn); ok {
-					written = "(Some " + t + ")"
+					// comment lines are compared only when go-yaml alone round-trips them on this input
+					wc := false
+					if xc, okx := commentLines20(c.Yaml); okx {
+						if id, okid := identity20(c.Yaml); okid {
+							if ic, oki := commentLines20(id); oki && reflect.DeepEqual(xc, ic) {
+								wc = true
+							}
+						}
+					}
+					written = "(Some (" + t + ", " + coqBool(wc) + "))"
+					if wc {
+						res.writtenComments = true
+					}
 				}
 			}
 		}
@@ -1089,7 +1189,8 @@ func runImpl20(c case20, withWritten bool) result20 {
 	if res.skipWhy != "" {
 		return res
 	}
-	res.term = fmt.Sprintf("(KDocs [%s] %s %s %s %s)", strings.Join(docs, "; "), coqStrList(nonstr), cls, outTerm, written)
+	res.term = fmt.Sprintf("(KDocs [%s] %s %s %s %s %s %s)", strings.Join(docs, "; "), coqStrList(nonstr), cls, outTerm, written,
+		coqStrList(dcIn), coqStrList(dcOut))
 	res.ok = true
 	return res
 }
@@ -1178,9 +1279,13 @@ func runOne20(r *Run, c case20, toModel bool, src string) {
 	flag("nested_seq_in_keyed_list", f.nestedSeqKeyed)
 	flag("dup_sort_field", f.dupSortField)
 	flag("alias", f.alias)
+	flag("complex_key", f.complexKey)
 	flag("whitelisted_seq", f.wlSeqs > 0)
 	flag("whitelisted_seq_out_of_order", f.wlReordered)
 	flag("changed_by_filter", res.nontrivial)
+	if toModel {
+		flag("written_output_comments_compared", res.writtenComments)
+	}
 	flag("empty_metadata", f.emptyMeta)
 	if c.UseSchema {
 		flag("schema_found", res.schemaFound)
@@ -1210,6 +1315,9 @@ func runOne20(r *Run, c case20, toModel bool, src string) {
 	}
 	if v, ok := info["pairs"]; ok {
 		r.Count("pairs_oracle", v)
+	}
+	if v, ok := info["order"]; ok {
+		r.Count("order_oracle", v)
 	}
 	for _, k := range []string{"schema_sites_string", "schema_sites_integer"} {
 		if v, ok := info[k]; ok {
@@ -1253,6 +1361,9 @@ func runC20(r *Run, rng *Rng, tier string) error {
 		"known + unknown field names in shuffled order; keyed and primitive lists incl. the whitelisted paths; adversarial scalars; " +
 		"head/line/foot comments; rare duplicate keys, >12-entry maps/lists, nested lists, anchors, opt-out annotation, missing kind/apiVersion). " +
 		"non-trivial = Filter changed at least one node tree; distinct by hash of the case term"
+	// NewRng(seed) states are shifts of one another (seed n+1 = seed n advanced by one step): derive the
+	// run's generator from a mixed output so that different seeds give unrelated streams
+	rng = rng.Fork().Fork()
 	r.shard = 30 // case terms are large (three node trees with comments per case): many small shards, evaluated in parallel
 	r.AddCase(tableCase20(), map[string]string{"kind": "table"}, true)
 	for _, c := range loadCorpus20() {
